@@ -58,9 +58,15 @@ type Poison struct{ Why string }
 
 // ---------- heap ----------
 
+type wideCell struct {
+	t *Term
+	n int
+}
+
 type Object struct {
 	conc     []byte
 	sym      map[int]*Term
+	wide     map[int]wideCell // store-to-load forwarding of whole symbolic words
 	typ      types.Type
 	ro       bool
 	released bool
@@ -73,6 +79,12 @@ func (o *Object) clone() *Object {
 		n.sym = make(map[int]*Term, len(o.sym))
 		for k, v := range o.sym {
 			n.sym[k] = v
+		}
+	}
+	if len(o.wide) > 0 {
+		n.wide = make(map[int]wideCell, len(o.wide))
+		for k, v := range o.wide {
+			n.wide[k] = v
 		}
 	}
 	return n
